@@ -68,6 +68,9 @@ impl<T> LinkedList<T> {
     /// get removed from the list before it gets moved or dropped.
     /// In addition to this `node` may not be added to another other list before
     /// it is removed from the current one.
+    #[cfg_attr(kani, kani::requires(kani_verif::pre_add_front(self, node)))]
+    #[cfg_attr(kani, kani::modifies(self, node, kani_verif::head_or(self, node)))]
+    #[cfg_attr(kani, kani::ensures(|_r| kani_verif::post_add_front(self, node, old(kani_verif::view(self)))))]
     pub unsafe fn add_front(&mut self, node: &mut ListNode<T>) {
         node.next = self.head;
         node.prev = None;
@@ -86,6 +89,8 @@ impl<T> LinkedList<T> {
     /// the linked list.
     /// The returned pointer is only guaranteed to be valid as long as the list
     /// is not mutated
+    #[cfg_attr(kani, kani::requires(kani_verif::pre_wf(self)))]
+    #[cfg_attr(kani, kani::ensures(|r| kani_verif::post_peek_first(self, r)))]
     pub fn peek_first(&self) -> Option<&ListNode<T>> {
         // Safety: When the node was inserted it was promised that it is alive
         // until it gets removed from the list.
@@ -103,6 +108,8 @@ impl<T> LinkedList<T> {
     /// the linked list.
     /// The returned pointer is only guaranteed to be valid as long as the list
     /// is not mutated
+    #[cfg_attr(kani, kani::requires(kani_verif::pre_wf(self)))]
+    #[cfg_attr(kani, kani::ensures(|r| kani_verif::post_peek_first_mut(self, r, old(kani_verif::view(self)))))]
     pub fn peek_first_mut(&mut self) -> Option<&mut ListNode<T>> {
         // Safety: When the node was inserted it was promised that it is alive
         // until it gets removed from the list.
@@ -120,6 +127,8 @@ impl<T> LinkedList<T> {
     /// the linked list.
     /// The returned pointer is only guaranteed to be valid as long as the list
     /// is not mutated
+    #[cfg_attr(kani, kani::requires(kani_verif::pre_wf(self)))]
+    #[cfg_attr(kani, kani::ensures(|r| kani_verif::post_peek_last(self, r)))]
     pub fn peek_last(&self) -> Option<&ListNode<T>> {
         // Safety: When the node was inserted it was promised that it is alive
         // until it gets removed from the list.
@@ -137,6 +146,8 @@ impl<T> LinkedList<T> {
     /// the linked list.
     /// The returned pointer is only guaranteed to be valid as long as the list
     /// is not mutated
+    #[cfg_attr(kani, kani::requires(kani_verif::pre_wf(self)))]
+    #[cfg_attr(kani, kani::ensures(|r| kani_verif::post_peek_last_mut(self, r, old(kani_verif::view(self)))))]
     pub fn peek_last_mut(&mut self) -> Option<&mut ListNode<T>> {
         // Safety: When the node was inserted it was promised that it is alive
         // until it gets removed from the list.
@@ -150,6 +161,9 @@ impl<T> LinkedList<T> {
     }
 
     /// Removes the first node from the linked list
+    #[cfg_attr(kani, kani::requires(kani_verif::pre_wf(self)))]
+    #[cfg_attr(kani, kani::modifies(self, kani_verif::head_or_none(self), kani_verif::head_next_or_none(self)))]
+    #[cfg_attr(kani, kani::ensures(|r| kani_verif::post_remove_first(self, r, old(kani_verif::view(self)))))]
     pub fn remove_first(&mut self) -> Option<&mut ListNode<T>> {
         // Safety: When the node was inserted it was promised that it is alive
         // until it gets removed from the list
@@ -176,6 +190,9 @@ impl<T> LinkedList<T> {
     }
 
     /// Removes the last node from the linked list and returns it
+    #[cfg_attr(kani, kani::requires(kani_verif::pre_wf(self)))]
+    #[cfg_attr(kani, kani::modifies(self, kani_verif::tail_or_none(self), kani_verif::tail_prev_or_none(self)))]
+    #[cfg_attr(kani, kani::ensures(|r| kani_verif::post_remove_last(self, r, old(kani_verif::view(self)))))]
     pub fn remove_last(&mut self) -> Option<&mut ListNode<T>> {
         // Safety: When the node was inserted it was promised that it is alive
         // until it gets removed from the list
@@ -202,6 +219,8 @@ impl<T> LinkedList<T> {
     }
 
     /// Returns whether the linked list doesn not contain any node
+    #[cfg_attr(kani, kani::requires(kani_verif::pre_wf(self)))]
+    #[cfg_attr(kani, kani::ensures(|r| kani_verif::post_is_empty(self, *r)))]
     pub fn is_empty(&self) -> bool {
         if !self.head.is_none() {
             return false;
@@ -216,6 +235,9 @@ impl<T> LinkedList<T> {
     /// It is also only save if it is known that the `node` is either part of this
     /// list, or of no list at all. If `node` is part of another list, the
     /// behavior is undefined.
+    #[cfg_attr(kani, kani::requires(kani_verif::pre_remove(self, node)))]
+    #[cfg_attr(kani, kani::modifies(self, node, kani_verif::prev_or_self(node), kani_verif::next_or_self(node)))]
+    #[cfg_attr(kani, kani::ensures(|r| kani_verif::post_remove(self, node, *r, old(kani_verif::view(self)))))]
     pub unsafe fn remove(&mut self, node: &mut ListNode<T>) -> bool {
         match node.prev {
             None => {
@@ -322,6 +344,10 @@ impl<T> LinkedList<T> {
         }
     }
 }
+
+#[cfg(kani)]
+#[path = "/verif/kani/list.rs"]
+mod kani_verif;
 
 #[cfg(all(test, feature = "alloc"))] // Tests make use of Vec at the moment
 mod tests {
